@@ -461,3 +461,6 @@ def replay(w):
     else:
         run_all({"alphabet": w.get("alphabet"), "max_depth": w.get("max_depth"), "paths": w.get("paths"), "seed": 0}, res)
     return res.violations
+
+
+RULE += " The holder's service also uses well-known types that the holder has as fields (Timestamp, Duration, Int32Value) directly as rpc types. Special paths include two seven-component packages that differ only in their first component. 'layout' shards: hand-written multi-file sets about references (import public inside the referencing package, package and root cycles, prefix packages, user messages named like a synthesized map entry)."
